@@ -44,6 +44,7 @@ var (
 	ErrInvalidNodeId             = errors.New("invalid nodeId")
 	ErrTxNotSign                 = errors.New("the transaction is not signed")
 	ErrTotalWeight               = errors.New("insufficient total weight of signatories")
+	ErrSignerRepeat              = errors.New("a signatory signed more than once or a normal account has more than one signature")
 	ErrSignerAndFromUnequally    = errors.New("the signer and from of transaction are not equal")
 	ErrGasPayer                  = errors.New("the gasPayer error")
 	ErrAddressType               = errors.New("address type wrong")
@@ -243,6 +244,11 @@ func (p *TxProcessor) checkSignersWeight(sender common.Address, tx *types.Transa
 	accSigners := p.am.GetAccount(sender).GetSigners()
 	length := len(accSigners)
 	if length == 0 { // 非多签账户
+		// A normal account is signed by itself only. Any additional signature makes another transaction hash of the same content, which could be executed again
+		if len(signers) != 1 {
+			log.Errorf("The transaction of normal account must have exactly one signature. Signatures: %d. From: %s", len(signers), sender.String())
+			return ErrSignerRepeat
+		}
 		signer := signers[0]
 		// 判断签名者是否为from
 		if signer != sender {
@@ -253,9 +259,20 @@ func (p *TxProcessor) checkSignersWeight(sender common.Address, tx *types.Transa
 		signersMap := accSigners.ToSignerMap()
 		// 计算签名者权重总和
 		var totalWeight int64 = 0
+		// A signer's weight is counted once. Or one signer could reach the threshold by repeating its own signature
+		countedSigners := make(map[common.Address]struct{}, len(signers))
 		for _, addr := range signers {
+			if _, ok := countedSigners[addr]; ok {
+				log.Errorf("The signer %s signed more than once", addr.String())
+				return ErrSignerRepeat
+			}
+			countedSigners[addr] = struct{}{}
 			if w, ok := signersMap[addr]; ok {
 				totalWeight = totalWeight + int64(w)
+			} else {
+				// A signature of somebody else makes another transaction hash of the same content, which could be executed again
+				log.Errorf("The signer %s is not a signatory of account %s", addr.String(), sender.String())
+				return ErrSignerAndFromUnequally
 			}
 		}
 		// 比较签名权重总和大小
